@@ -13,10 +13,12 @@
 EXTENDS Integers, Sequences, FiniteSets, TLC
 Topo == INSTANCE Topology          \* shared topology model: Reach (undirected reachability), MinOf, IsPartition
 
-CONSTANTS ColRule,         \* "bus_minus_norefs" = pinned tree (run_bfswpf.py:140) | "rank_nonroot" = proposed fix C06_1
-          ShiftRule,       \* "all_trafos" = pinned tree (run_bfswpf.py:422) | "tree_trafos" = proposed fix C06_2
-          Ls2gInstalled,   \* lightsim2grid importable (auxiliary.py:1313)
-          NumbaInstalled   \* numba importable (run_newton_raphson_pf.py:24-30)
+(* Switches of the CODE MODEL (not of the property).  They describe the pinned tree; when a proposed fix is applied to *)
+(* /repo the corresponding line is changed here -- otherwise the conformance clauses report the model as stale.       *)
+ColRule   == "bus_minus_norefs"    \* run_bfswpf.py:140 as pinned  | "rank_nonroot" = with proposed fix C06_1
+ShiftRule == "all_trafos"          \* run_bfswpf.py:422 as pinned  | "tree_trafos"  = with proposed fix C06_2
+Ls2gInstalled  == TRUE             \* lightsim2grid importable (auxiliary.py:1313)
+NumbaInstalled == TRUE             \* numba importable (run_newton_raphson_pf.py:24-30)
 
 -----------------------------------------------------------------------------
 (* 1. NETWORK CLASS.  A class c is a sequence of 1..2 island descriptors                                          *)
@@ -62,7 +64,9 @@ NGen(c) == Cardinality(SlackElems(c)) + Cardinality({k \in DOMAIN c : c[k].pv})
 
 \* graph-theoretic classification (independent of the block structure; Solvers!M_ClassSound ties the two together)
 Island(c, b) == Topo!Reach({b}, Edges(c))
-Islands(c) == {Island(c, b) : b \in Buses(c)}
+RECURSIVE Components(_, _)
+Components(c, rest) == IF rest = {} THEN {} ELSE LET I == Island(c, Topo!MinOf(rest)) IN {I} \cup Components(c, rest \ I)
+Islands(c) == Components(c, Buses(c))                  \* connected components of the branch graph
 EdgesIn(c, I) == {e \in Edges(c) : e[1] \in I}
 Cyclomatic(c, I) == Cardinality(EdgesIn(c, I)) - Cardinality(I) + 1
 SlacksIn(c, I) == {s \in SlackElems(c) : s[1] \in I}
@@ -186,47 +190,54 @@ BfswPred(c) ==
 
 \* ordered breadth-first search as scipy.sparse.csgraph.breadth_first_order(G, r, directed=False) performs it on
 \* G = csr((1, (F_BUS, T_BUS))) (:391): per dequeued node first the out-arcs, then the in-arcs, each in ascending order
-Nbrs(c, n) == Asc({a[2] : a \in {a \in Arcs(c) : a[1] = n}}) \o Asc({a[1] : a \in {a \in Arcs(c) : a[2] = n}})
+\* (A = set of arcs)
+Nbrs(A, n) == Asc({a[2] : a \in {a \in A : a[1] = n}}) \o Asc({a[1] : a \in {a \in A : a[2] = n}})
 RECURSIVE Bfs(_, _, _, _)
-Bfs(c, order, i, pred) ==
+Bfs(A, order, i, pred) ==
   IF i > Len(order) THEN [order |-> order, pred |-> pred]
   ELSE LET n == order[i]
-           fresh == SelectSeq(Nbrs(c, n), LAMBDA x : x \notin Range(order))
-       IN  Bfs(c, order \o fresh, i + 1,
+           fresh == SelectSeq(Nbrs(A, n), LAMBDA x : x \notin Range(order))
+       IN  Bfs(A, order \o fresh, i + 1,
                [x \in DOMAIN pred \cup Range(fresh) |-> IF x \in DOMAIN pred THEN pred[x] ELSE n])
-BfsFrom(c, r) == Bfs(c, <<r>>, 1, [x \in {r} |-> r])
+BfsFrom(c, r) == Bfs(Arcs(c), <<r>>, 1, [x \in {r} |-> r])          \* [order: visiting order, pred: BFS tree]
 Pos(t, b) == CHOOSE i \in DOMAIN t.order : t.order[i] = b
 RECURSIVE PathUp(_, _, _)
 PathUp(t, r, x) == IF x = r THEN {x} ELSE {x} \cup PathUp(t, r, t.pred[x])             \* buses on the tree path r .. x
 Subtree(t, r, n) == {x \in Range(t.order) : n \in PathUp(t, r, x)}
 IsTreeEdge(t, a) == (a[2] # t.order[1] /\ t.pred[a[2]] = a[1]) \/ (a[1] # t.order[1] /\ t.pred[a[1]] = a[2])
 
-ShiftedTrafos(c, I) == {a \in Arcs(c) : a[3] = "trafo" /\ a[1] \in I /\ ShiftOf(c[IslandIdx(a[1])]) # 0}
-ArcShift(c, a) == ShiftOf(c[IslandIdx(a[1])])
-\* rotation (units of 150 degrees) the post-processing applies to bus b of the island of reference r (:417-441):
-\* for every shifted trafo the BFS sub-tree below its later-visited end is turned by -/+ shift
-CodeRot(c, r, b) ==
-  LET t == BfsFrom(c, r)
-      S == {a \in ShiftedTrafos(c, Range(t.order)) : ShiftRule = "all_trafos" \/ IsTreeEdge(t, a)}     \* :422 / fix
+ArcShift(c, a) == IF a[3] = "trafo" THEN ShiftOf(c[IslandIdx(a[1])]) ELSE 0
+ShiftedTrafos(c) == {a \in Arcs(c) : ArcShift(c, a) # 0}
+\* rotation (units of 150 degrees) the post-processing applies to bus b of the island with BFS tree t rooted at r
+\* (:417-441): for every shifted trafo (T = those of the island) the BFS sub-tree below its later-visited end is turned
+\* by -/+ shift
+CodeRot(c, T, t, r, b) ==
+  LET S == {a \in T : ShiftRule = "all_trafos" \/ IsTreeEdge(t, a)}                   \* :422 / fix
       by(a) == LET down == Pos(t, a[1]) < Pos(t, a[2])                                \* :432-437
                    lvb == IF down THEN a[2] ELSE a[1]
                IN IF b \in Subtree(t, r, lvb) THEN (IF down THEN -1 ELSE 1) * ArcShift(c, a) ELSE 0
   IN  SumF([a \in S |-> by(a)], S)
 \* rotation the bus really has w.r.t. the shift-free network the sweep solves (:402-409): the shifts met on the tree path
-ReqRot(c, r, b) ==
-  LET t == BfsFrom(c, r)
-      P == PathUp(t, r, b) \ {r}
-      step(x) == LET dn == {a \in ShiftedTrafos(c, Range(t.order)) : a[1] = t.pred[x] /\ a[2] = x}
-                     up == {a \in ShiftedTrafos(c, Range(t.order)) : a[2] = t.pred[x] /\ a[1] = x}
+ReqRot(c, T, t, r, b) ==
+  LET P == PathUp(t, r, b) \ {r}
+      step(x) == LET dn == {a \in T : a[1] = t.pred[x] /\ a[2] = x}
+                     up == {a \in T : a[2] = t.pred[x] /\ a[1] = x}
                  IN IF dn # {} THEN -ArcShift(c, CHOOSE a \in dn : TRUE)
                     ELSE IF up # {} THEN ArcShift(c, CHOOSE a \in up : TRUE) ELSE 0
   IN  SumF([x \in P |-> step(x)], P)
-RootOf(c, b) == CHOOSE r \in RefBuses(c) : r \in Island(c, b)
-\* predicted error of the bfsw voltage angle at bus b, in units of 150 degrees (0 unless voltage angles are calculated:
-\* build_branch.py writes SHIFT only then, and :417 tests the option)
-BfswAngleErr(c, cva, b) ==
-  IF ~cva \/ ~OneRefPerIsland(c) THEN 0 ELSE LET r == RootOf(c, b) IN CodeRot(c, r, b) - ReqRot(c, r, b)
-BfswAngleSound(c, cva) == \A b \in Buses(c) : BfswAngleErr(c, cva, b) = 0
+\* predicted error of the bfsw voltage angle per bus, in units of 150 degrees (0 unless voltage angles are calculated:
+\* build_branch.py writes SHIFT only then, and :417 tests the option; 0 where the model makes no prediction)
+BfswAngleErrs(c, cva) ==
+  IF ~cva \/ ~OneRefPerIsland(c) \/ ShiftedTrafos(c) = {} THEN [b \in Buses(c) |-> 0]
+  ELSE LET A == Arcs(c)
+           ST == ShiftedTrafos(c)
+           tree == [r \in RefBuses(c) |-> Bfs(A, <<r>>, 1, [x \in {r} |-> r])]
+           root == [b \in Buses(c) |-> CHOOSE r \in RefBuses(c) : b \in Range(tree[r].order)]
+       IN  [b \in Buses(c) |->
+              LET r == root[b]  t == tree[r]  T == {a \in ST : a[1] \in Range(t.order)}
+              IN  CodeRot(c, T, t, r, b) - ReqRot(c, T, t, r, b)]
+BfswAngleErr(c, cva, b) == BfswAngleErrs(c, cva)[b]
+BfswAngleSound(c, cva) == LET e == BfswAngleErrs(c, cva) IN \A b \in Buses(c) : e[b] = 0
 
 -----------------------------------------------------------------------------
 (* 4. REQUIRED OUTCOMES.  Outcome classes of one run: "ok" (returned, net.converged), "not_converged"              *)
@@ -250,7 +261,7 @@ Plan(c, cva, s, hasRes) ==
 \* spec-computed features of a class (used by the harness for structural finding keys and coverage counts only)
 Feat(c, cva) ==
   [nisl |-> Cardinality(Islands(c)), nslack |-> Cardinality(SlackElems(c)), npv |-> Cardinality(PVBuses(c)),
-   maxloops |-> Topo!MinOf({m \in 0..9 : \A I \in Islands(c) : Cyclomatic(c, I) <= m}),
+   maxloops |-> LET L == {Cyclomatic(c, I) : I \in Islands(c)} IN CHOOSE m \in L : \A x \in L : x <= m,
    applicable |-> BfswApplicable(c), mustsolve |-> BfswMustSolve(c),
    rootsfirst |-> RefBuses(c) = 0..(NoRefs(c) - 1),
    bfswpred |-> BfswPred(c), angleerr |-> ~BfswAngleSound(c, cva),
